@@ -413,7 +413,6 @@ def disk_dtype(t, o):
 def refusal(case, inputs):
     """(kind, reason): kind 'must' - the write has to be refused; 'may' - it may be."""
     o = case["opts"]
-    c = o["Conventions"]
     toks = requested_conventions(case, inputs)
     if any("," in t for t in toks if not is_cf(t)):
         return "must", "conventions-comma"
@@ -656,9 +655,6 @@ def oracle_file(chk, case, row, cf_version):
         for a in FILL_ATTRS:
             if (a in inp["props"]) != (a in at) and a not in omitted:
                 fail("variable-attribute-placement", f"field {i} ({dv}): {a} property {a in inp['props']}, attribute {a in at}")
-        if o["fmt"] != "NETCDF4" or True:
-            # _FillValue / missing_value are compared by type below, by value here
-            pass
         if got_at != want_at:
             fail("variable-attribute-placement",
                  f"field {i} ({dv}): attributes {got_at}, expected {want_at}")
